@@ -343,7 +343,7 @@ def render_out(reg, d, out):
         return "t:[%s]" % "|".join(".".join(str(int(x)) for x in t) for t in sorted(tuple(int(x) for x in t) for t in v))
     if op in ("min", "max"):
         return "i:%d" % int(v)
-    if op == "downsize":
+    if op in ("downsize", "pickle"):
         return "unit"
     if op == "branch":
         return "new:%d" % v
